@@ -73,7 +73,7 @@ func totalOf(m map[common.Address]funds) *big.Int {
 // except inviter→own invitee, pool→own delegator, a contract paying out of its own balance during a call.
 // The signer is NOT taken from types.Sender(tx): it is recovered from the wire bytes (WireSigner) and cross-checked with
 // the key the generator signed with; a transaction nobody signed has no allowed payer at all.
-func (f *fix) oracleC05(i int, pre, post map[common.Address]funds, preInviter, preDelegatee *common.Address) []Finding {
+func (f *fix) oracleC05(i int, pre, post map[common.Address]funds, preInviter, preDelegatee *common.Address, terminated map[common.Address]bool) []Finding {
 	tx := f.txs[i]
 	signer, signed := WireSigner(tx)
 	reported, _ := types.Sender(tx)
@@ -94,7 +94,7 @@ func (f *fix) oracleC05(i int, pre, post map[common.Address]funds, preInviter, p
 		allowed := false
 		switch tx.Type {
 		case types.KillInviteeTx:
-			allowed = tx.To != nil && a == *tx.To && preInviter != nil && *preInviter == signer
+			allowed = tx.To != nil && a == *tx.To && preInviter != nil && *preInviter == signer && !terminated[signer]
 		case types.KillDelegatorTx:
 			allowed = tx.To != nil && a == *tx.To && preDelegatee != nil && *preDelegatee == signer
 		case types.CallContractTx, types.TerminateContractTx:
@@ -211,6 +211,7 @@ func RunCase(cs *Case, emit func(op, impl string)) (findings []Finding, stats Ru
 	}
 	emit("dump", f.dump())
 	valOK := map[int]int{}
+	terminated := map[common.Address]bool{} // identities terminated by a transaction applied earlier in this case (history, not state)
 	applied := map[int]bool{}
 	appliedEpoch := map[int]uint16{}
 	for opi, op := range cs.Ops {
@@ -262,6 +263,25 @@ func RunCase(cs *Case, emit func(op, impl string)) (findings []Finding, stats Ru
 					}
 				}
 			}
+			// who this transaction terminates, and whose inviter links the termination has to remove (read before)
+			var victim *common.Address
+			var victimInvitees []common.Address
+			if ws, ok := WireSigner(f.txs[op.Tx]); ok {
+				switch f.txs[op.Tx].Type {
+				case types.KillTx:
+					victim = &ws
+				case types.KillInviteeTx, types.KillDelegatorTx:
+					if to := f.txs[op.Tx].To; to != nil {
+						a := *to
+						victim = &a
+					}
+				}
+			}
+			if victim != nil {
+				for _, x := range f.check.State.GetInvitees(*victim) {
+					victimInvitees = append(victimInvitees, x.Address)
+				}
+			}
 			ans, fe := f.apply(op.Tx)
 			stats.Evals++
 			kind := "raw"
@@ -286,8 +306,42 @@ func RunCase(cs *Case, emit func(op, impl string)) (findings []Finding, stats Ru
 				appliedEpoch[op.Tx] = f.check.State.Epoch()
 			}
 			if validated && ans == "ok" {
+				tx := f.txs[op.Tx]
+				ws, _ := WireSigner(tx)
+				terminatedBefore := map[common.Address]bool{}
+				for k := range terminated {
+					terminatedBefore[k] = true
+				}
+				switch tx.Type {
+				case types.KillInviteeTx:
+					if preInviter == nil || *preInviter != ws {
+						findings = append(findings, Finding{Sig: "C05:killInvitee-by-non-inviter", OpIdx: opi,
+							Detail: fmt.Sprintf("KillInviteeTx signed by id %d applied to id %d whose inviter link does not name the signer", f.idOf(ws), f.idOf(*tx.To))})
+					}
+					if terminated[ws] {
+						findings = append(findings, Finding{Sig: "C05:terminated-inviter-killed-former-invitee", OpIdx: opi,
+							Detail: fmt.Sprintf("id %d was terminated earlier in this history (a terminated identity has no invitees), yet its KillInviteeTx against id %d was validated and applied: stake %s -> %s",
+								f.idOf(ws), f.idOf(*tx.To), pre[*tx.To].stake, bz(f.check.State.GetIdentity(*tx.To).Stake))})
+					}
+				case types.KillDelegatorTx:
+					if preDelegatee == nil || *preDelegatee != ws {
+						findings = append(findings, Finding{Sig: "C05:pool-terminated-non-delegator", OpIdx: opi,
+							Detail: fmt.Sprintf("KillDelegatorTx signed by id %d applied to id %d whose established delegatee (State.Delegatee at the pre-state) is not the signer — a pending delegation switch is not a delegation; stake %s -> %s, signer's balance %s -> %s",
+								f.idOf(ws), f.idOf(*tx.To), pre[*tx.To].stake, bz(f.check.State.GetIdentity(*tx.To).Stake), pre[ws].bal, f.check.State.GetBalance(ws))})
+					}
+				}
+				if victim != nil {
+					for _, x := range victimInvitees {
+						if inv := f.check.State.GetInviter(x); inv != nil && inv.Address == *victim {
+							findings = append(findings, Finding{Sig: "C05:terminated-identity-keeps-invitee-link", OpIdx: opi,
+								Detail: fmt.Sprintf("after %s terminated id %d, its former invitee id %d (one of %d) still names it as inviter", TypeName(tx.Type), f.idOf(*victim), f.idOf(x), len(victimInvitees))})
+							break
+						}
+					}
+					terminated[*victim] = true
+				}
 				post := f.snapshot()
-				for _, x := range f.oracleC05(op.Tx, pre, post, preInviter, preDelegatee) {
+				for _, x := range f.oracleC05(op.Tx, pre, post, preInviter, preDelegatee, terminatedBefore) {
 					x.OpIdx = opi
 					findings = append(findings, x)
 				}
@@ -492,7 +546,7 @@ func Run(c *hx.Ctx, props ...string) error {
 	}
 	hitKinds := map[string]map[string]bool{}
 	for i := 0; i < n; i++ {
-		t := uint16(i % 24)
+		t := uint16(i % NScenarios)
 		cs := GenCase(c.Rng, t)
 		fs, st, err := RunCase(cs, emit)
 		if err != nil {
